@@ -128,7 +128,7 @@ func init() {
 	check.RegisterProp("C14", func(tier string) []check.Job {
 		var jobs []check.Job
 		for m := 1; m <= 4; m++ {
-			ml := 3
+			ml := 4
 			if tier == "thorough" {
 				ml = 5
 			}
@@ -142,7 +142,7 @@ func init() {
 		jobs = append(jobs, s1job("two-sessions", d-2, []string{"C14"}, 4, 300))
 		return jobs
 	}, check.PropInfo{
-		Rule:        "IN: full product of recipient lists (all ordered lists of length <=3 (thorough: <=5) over {every member incl. the sender, an unknown id, an id valid only in another session}, plus a 600-entry list) x body lengths {0,1,10236..10244} x byte patterns {zeros, 0xff, ramp, protobuf-looking}, in sessions of 1-4 members with a second session alive; every case executed on the real server and compared with the model (recipients = named ∩ members − sender, once each; body identical; TOO_LARGE iff > 10240)",
+		Rule:        "IN: full product of recipient lists (all ordered lists of length <=4 (thorough: <=5) over {every member incl. the sender, an unknown id, an id valid only in another session}, plus a 600-entry list) x body lengths {0,1,10236..10244} x byte patterns {zeros, 0xff, ramp, protobuf-looking}, in sessions of 1-4 members with a second session alive; every case executed on the real server and compared with the model (recipients = named ∩ members − sender, once each; body identical; TOO_LARGE iff > 10240)",
 		Assumptions: s1Assumptions,
 	})
 
@@ -180,7 +180,10 @@ func init() {
 			}
 			jobs = append(jobs, s1flagjob("entities", 6, allFlags), s1flagjob("components", 5, allFlags), s1flagjob("modules", 5, allFlags))
 		} else {
-			jobs = append(jobs, s1flagjob("entities", 5, allFlags), s1flagjob("components", 3, allFlags), s1flagjob("entities", 4, []string{"DISABLE_ENTITY_DELETE_BROADCAST"}))
+			for _, f := range allFlags {
+				jobs = append(jobs, s1flagjob("entities", 5, []string{f}), s1flagjob("components", 4, []string{f}))
+			}
+			jobs = append(jobs, s1flagjob("entities", 5, allFlags), s1flagjob("components", 4, allFlags))
 		}
 		return jobs
 	}, check.PropInfo{
